@@ -1,0 +1,14 @@
+// Verification hooks (off by default).
+//
+// With QTLOGGER_VERIF defined, QTLOGGER_VERIF_POINT(tag) calls an external
+// function supplied by a test harness; it marks a point where a deterministic
+// scheduler may switch threads. Without the define it expands to nothing.
+
+#pragma once
+
+#ifdef QTLOGGER_VERIF
+extern "C" void qtlogger_verif_point(const char *tag);
+#    define QTLOGGER_VERIF_POINT(tag) qtlogger_verif_point(tag)
+#else
+#    define QTLOGGER_VERIF_POINT(tag) do { } while (0)
+#endif
